@@ -48,7 +48,88 @@ fn lap(ctx: &mut Ctx, what: &str, t0: f64) {
     ctx.count(&format!("wall_ms:{}", what), (dt * 1000.0) as u64);
 }
 
-pub fn run(ctx: &mut Ctx, _args: &Args) {
+/// The slice run under Miri (extra stage "miri" of stages.json): a few hundred
+/// IntSet / codec / RangeSet operations with the same oracles as the full
+/// workload. What Miri adds: undefined behaviour, out-of-bounds or misaligned
+/// accesses and provenance errors in the bit-page arithmetic of `BitSet` /
+/// `BitPage`, the sparse-bit-set reader/writer and `RangeSet`.
+fn miri_slice(ctx: &mut Ctx, _args: &Args) {
+    ctx.level = "exploration".into();
+    ctx.assumptions.push("Miri slice: single-threaded interpretation (-Zmiri-symbolic-alignment-check) of a few hundred operations per element type; the value oracles are those of the full workload".into());
+    let steps: usize = std::env::var("VF_MIRI_STEPS").ok().and_then(|s| s.parse().ok()).unwrap_or(ctx.tier.pick(40, 160));
+    {
+        let ex2 = [0b00001110u8, 0b00100001, 0b00010001, 0b00000001, 0b00000100, 0b00000010, 0b00001000];
+        let ok2 = matches!(codec::ref_decode(&ex2, 0, u32::MAX), codec::RefOut::Ok{ref members, consumed: 7, ..} if *members == Iv::from_points([2, 33, 323]));
+        if !ok2 {
+            ctx.inconclusive("reference sparse-bit-set decoder fails the specification example 2");
+            return;
+        }
+        ctx.count("codec:reference_decoder_spec_examples_ok", 1);
+    }
+    let mut codec = Codec::new(1);
+    // 1. random histories, one per element type (page arithmetic differs per domain width)
+    rnd::<u32>(ctx, &mut codec, 1, steps);
+    rnd::<u16>(ctx, &mut codec, 1, steps);
+    rnd::<u8>(ctx, &mut codec, 1, steps / 2);
+    rnd::<GlyphId>(ctx, &mut codec, 1, steps / 2);
+    rnd::<GlyphId16>(ctx, &mut codec, 1, steps / 2);
+    rnd::<Tag>(ctx, &mut codec, 1, steps / 2);
+    rnd::<NameId>(ctx, &mut codec, 1, steps / 2);
+    rnd::<Cont>(ctx, &mut codec, 1, steps / 2);
+    rnd::<Disc10>(ctx, &mut codec, 1, steps / 2);
+    // 2. codec: round trips of small subsets, generated corner-case sets, decoding of arbitrary bytes
+    let t0 = ctx.elapsed_s();
+    let mut rng = Rng::derive(ctx.seed, "c14-miri", 0);
+    for _ in 0..ctx.tier.pick(6, 24) {
+        let bits = rng.below(65536) as u32;
+        let m = Iv::from_points((0..16).filter(|i| bits >> i & 1 == 1));
+        let s: IntSet<u32> = m.iter().collect();
+        codec.roundtrip(ctx, &s, &m, &format!("subset16:{:04x}", bits));
+    }
+    for i in 0..ctx.tier.pick(3, 12) {
+        // sparse hand-made sets around page and word boundaries (gen_codec_set may produce sets too large for Miri)
+        let base = [0u32, 500, 65_530, 1 << 24][i % 4];
+        let m = Iv::from_points((0..(3 + rng.below(6))).map(|_| base + rng.below(70) as u32).collect::<Vec<_>>());
+        let s = codec::build_set(&m, &mut rng);
+        codec.roundtrip(ctx, &s, &m, &format!("miri-gen:seed{}:{}", ctx.seed, i));
+    }
+    for (bias, max) in [(0u32, u32::MAX), (5, 20), (u32::MAX - 1, u32::MAX)] {
+        codec.decode_arbitrary(ctx, &[], bias, max, "len0");
+        codec.decode_arbitrary(ctx, &ex_bytes(), bias, max, "spec-example-2");
+    }
+    for _ in 0..ctx.tier.pick(40, 160) {
+        let len = rng.usize(10);
+        let mut data = rng.bytes(len);
+        if rng.bool() {
+            data.iter_mut().for_each(|b| *b &= rng.u32() as u8);
+        }
+        if !data.is_empty() && rng.chance(3, 4) {
+            let code = rng.below(4) as u8;
+            let h = rng.below(4) as u8;
+            data[0] = code | (h << 2);
+        }
+        let (bias, max) = codec::random_bias_max(&mut rng);
+        codec.decode_arbitrary(ctx, &data, bias, max, "random-bytes");
+    }
+    codec.flush(ctx);
+    lap(ctx, "miri:codec", t0);
+    // 3. RangeSet
+    let t0 = ctx.elapsed_s();
+    {
+        let mut rs = rangeset::RsRunner::new();
+        rangeset::random::<u32>(&mut rs, ctx, 1, steps / 2);
+        rangeset::random::<u16>(&mut rs, ctx, 1, steps / 2);
+        rangeset::random::<Fixed>(&mut rs, ctx, 1, steps / 2);
+        rs.tally.flush(ctx, "");
+    }
+    lap(ctx, "miri:rangeset", t0);
+}
+
+fn ex_bytes() -> [u8; 7] {
+    [0b00001110u8, 0b00100001, 0b00010001, 0b00000001, 0b00000100, 0b00000010, 0b00001000]
+}
+
+pub fn run(ctx: &mut Ctx, args: &Args) {
     ctx.policy = PanicPolicy::Any;
     ctx.rule = "IntSet: a history step is non-trivial when the operation changed the membership of the set, combined two sets \
                 (union/intersect/subtract), inverted it or changed a mode; distinct = distinct (domain, operation, modes of both \
@@ -64,6 +145,9 @@ pub fn run(ctx: &mut Ctx, _args: &Args) {
         "Inverted IntSet<u32> values are not encoded (iteration over ~2^32 members); sets of up to 20000 members are".into(),
         "Ord on IntSet is taken to be the lexicographic order of the ascending member sequences (as BTreeSet)".into(),
     ];
+    if cfg!(miri) || args.profile == "miri" {
+        return miri_slice(ctx, args);
+    }
     let thorough = ctx.tier.is_thorough();
     let t = ctx.tier;
 
